@@ -80,7 +80,7 @@ def grow_scenarios(rng, tier):
                       st.append({"op": "close"})
                       for s in st:
                           s.setdefault("obs", O)
-                      ex.append({"x": "g%d" % n, "np": np_, "steps": st, "lenv": {"PNETCDF_VERIF_MOVE_UNIT": mu} if mu else None})
+                      ex.append({"x": "g%d" % n, "np": np_, "steps": st, "delta": delta, "gap": gap, "lenv": {"PNETCDF_VERIF_MOVE_UNIT": mu} if mu else None})
                       n += 1
     return ex
 
